@@ -287,6 +287,15 @@ def mutations(req, rng, per_path=None, extra_values=()):
         r = copy.deepcopy(req)
         r["extra"] = 1
         yield ("extra",), 1, r
+        # a documented field of this or another request shape, added where the template does not have it
+        # (e.g. `auth` on a hash signature): every palette value, null included
+        for key in ("auth", "message", "keyId", "blocks", "brothers", "udValue", "version"):
+            if key not in req:
+                choices = vals if per_path is None else PRIORITY + list(EXTRA_VALUES) + rng.sample(vals, min(per_path, len(vals)))
+                for val in choices:
+                    r = copy.deepcopy(req)
+                    r[key] = val
+                    yield (key,), val, r
         if isinstance(req.get("message"), dict):
             r = copy.deepcopy(req)
             r["message"]["extra"] = "x"
